@@ -35,6 +35,19 @@ CLAIMED.update({
             "DESIGN.md §4 C06"),
 })
 
+CLAIMED.update({
+    "C15": ("relation operand symmetry + field coverage (taint classes over go/ssa) + guard dominance on reattachToPipestance and Pipestance.Lock",
+            "Structural necessary conditions: every comparison / nested relation call in the equivalence relations pairs a receiver-derived value with the same component of the argument (found the genuine self-comparison in Modifiers.EquivalentTo, now fixed); "
+            "each semantic field is read on both sides; attachment is dominated by byte equality with the recorded file and by EquivalentCall; refusals unlock; the lock is written only when absent, after the handler is registered; mutating entry points are guarded by readOnly().",
+            "Not decided: completeness (cosmetic edits are accepted), races between two simultaneous first starts, that the byte comparison of the invocation text refuses a merely reformatted invocation (observation only).",
+            "DESIGN.md §4 C15"),
+    "C18": ("table agreement (escape set extracted from SSA comparisons vs POSIX special set) + provenance with sanitizer + template scan",
+            "Structural necessary conditions: the escape set of appendShellSafeQuote covers $ ` \" \\ (found the genuine missing back-tick, now fixed), values are wrapped in double quotes, every argv element / command / environment value reaches the script only through the quoting function, "
+            "STDOUT/STDERR/JOB_WORKDIR/CMD parameters are quoted results, __MRO_CMD__ stands unquoted in command position in all templates.",
+            "Not decided: invalid UTF-8 (octal extension), JOB_NAME/RESOURCES, directive parsers of each cluster. Oracle: POSIX XCU 2.2.3.",
+            "DESIGN.md §4 C18"),
+})
+
 NOT_APPLICABLE = {
     "C01": "Equality of delivered argument values with the denotation of binding expressions quantifies over run-time JSON values and fork matching for all programs; no clause is a fact about the shape of the code, so any static rule would be a proxy, not a necessary condition.",
     "C13": "Materialisation of files under outs/ and the rewritten _outs are file-system effects and hand-assembled JSON values; the only structural candidate (bracket pairing of the JSON writers) does not imply validity and is exercised by the existing golden tests.",
